@@ -22,6 +22,8 @@ LEAVES = [
     T.lst(T.path("x", "a"), T.path("a", "x"), T.Int(2)),
     T.lam(T.path("x", "ys"), "Any", "y", T.binop("Eq", T.path("y", "p"), T.path("x", "q"))),
     T.lam(T.path("x", "ys"), "All", "y", T.lam(T.path("y", "zs"), "Any", "z", T.binop("Gt", T.path("z", "p"), T.path("x", "a", "b")))),
+    T.lam(T.path("zz", "ts"), "Any", "z", T.binop("Eq", T.path("z", "name"), T.path("zz", "name"))),
+    T.lam(T.path("x", "ts"), "All", "y", T.binop("Eq", T.path("y", "name"), T.path("zz", "name"))),
     T.lam(T.path("a", "ys"), "Any"), T.lam(T.path("x", "a", "ys"), "Any"), T.Str("x/a"), T.path("x", "x"), T.path("x", "x", "x"),
 ]
 LIST_LEAVES = [T.lst(T.path("x", "a"), T.Int(1)), T.lst(T.path("y", "a")), T.lst(x, T.path("x", "b", "c"))]
